@@ -518,7 +518,7 @@ def all_jobs():
 C10_BUILTINS = set('substr lsubstr rsubstr subraw strpos replace trim ltrim rtrim upper lower tokenize strlen hex hash chr raw str num int isnum b64enc b64dec'.split())
 # builtins under the generic contract (name, class, number of arguments); see tools/try_builtins.sh for how the list was grown
 # compiled type of the builtins whose type() is a constant (blocc/builtin/builtin_<name>.h / .cpp): checked as C02
-BUILTIN_FIXED_TYPE = dict(atan2='NUMERIC', chr='LITERAL', random='NUMERIC',
+BUILTIN_FIXED_TYPE = dict(atan2='NUMERIC', random='NUMERIC',
                           imag='NUMERIC', iphase='NUMERIC', iconj='IMAGINARY', bool='BOOLEAN', isnull='BOOLEAN', strlen='INTEGER', strpos='INTEGER', typeof='LITERAL', str='LITERAL', b64enc='LITERAL', b64dec='TABCHAR', int='INTEGER', num='NUMERIC', isnum='BOOLEAN', getenv='LITERAL', lower='LITERAL', upper='LITERAL',
                           lsubstr='LITERAL', rsubstr='LITERAL', substr='LITERAL', replace='LITERAL', trim='LITERAL', ltrim='LITERAL', rtrim='LITERAL', hex='LITERAL', subraw='TABCHAR', raw='TABCHAR')
 # builtins whose type() is complex for a complex first argument and decimal otherwise
@@ -543,7 +543,7 @@ BUILTINS_GENERIC = [
     ('ltrim', 'LTRIMExpression', 1, 8, 'character loops over a string of at most 2 characters (operand bound)', 2),
     ('rtrim', 'RTRIMExpression', 1, 8, 'character loops over a string of at most 2 characters (operand bound)', 2),
     ('replace', 'REPLACEExpression', 3, 8, 'search loop over a subject of at most 2 characters (operand bound): at most 3 searches', 2),
-    ('chr', 'CHRExpression', 1), ('random', 'RANDOMExpression', 1),
+    ('random', 'RANDOMExpression', 1),
     ('hex', 'HEXExpression', 2, 17, 'HEXExpression::hex writes the 16 hexadecimal digits of a 64-bit value: 15 iterations, complete'),
 ]
 if os.environ.get('VERIF_BUILTINS'):   # experiments only (tools/try_builtins.sh): name:Class:nargs,...
